@@ -279,6 +279,36 @@ def _normalise_explaining_variables(tree: ast.Module) -> None:
         conv(fn.body)
 
 
+def _normalise_negated_compares(tree: ast.Module) -> None:
+    """`not a in b` is `a not in b`, `not a is b` is `a is not b`, `not a == b` is `a != b` (single-operator comparisons;
+    the ordering operators are left alone: `not a < b` is not `a >= b` for sets or NaN)."""
+    NEG = {ast.In: ast.NotIn, ast.NotIn: ast.In, ast.Is: ast.IsNot, ast.IsNot: ast.Is, ast.Eq: ast.NotEq, ast.NotEq: ast.Eq}
+
+    class Tr(ast.NodeTransformer):
+        def visit_UnaryOp(self, n):
+            self.generic_visit(n)
+            if isinstance(n.op, ast.Not) and isinstance(n.operand, ast.Compare) and len(n.operand.ops) == 1 and type(n.operand.ops[0]) in NEG:
+                c = n.operand
+                c.ops = [NEG[type(c.ops[0])]()]
+                return ast.copy_location(c, n)
+            return n
+    Tr().visit(tree)
+
+
+def _normalise_numeric_augassign(tree: ast.Module) -> None:
+    """`n = n - 1` is `n -= 1` (plain name, numeric literal on the right: the value is a number, so rebinding and
+    in-place update cannot be told apart)."""
+    class Tr(ast.NodeTransformer):
+        def visit_Assign(self, n):
+            self.generic_visit(n)
+            v = n.value
+            if len(n.targets) == 1 and isinstance(n.targets[0], ast.Name) and isinstance(v, ast.BinOp) and isinstance(v.left, ast.Name) and v.left.id == n.targets[0].id \
+                    and isinstance(v.right, ast.Constant) and isinstance(v.right.value, (int, float)) and not isinstance(v.right.value, bool):
+                return ast.copy_location(ast.AugAssign(target=n.targets[0], op=v.op, value=v.right), n)
+            return n
+    Tr().visit(tree)
+
+
 def _normalise_local_annotations(tree: ast.Module) -> None:
     """Inside function bodies, `x: T = v` is the same statement as `x = v` for every rule
     here: rewrite it to an Assign (the annotation is kept in `.ann`), so that adding or
@@ -451,6 +481,8 @@ class Index:
                 except SyntaxError as e:
                     raise AnalysisError(f"cannot parse {path}: {e}") from e
                 _normalise_local_annotations(tree)
+                _normalise_negated_compares(tree)
+                _normalise_numeric_augassign(tree)
                 _normalise_empty_containers(tree)
                 _normalise_namespace_aliases(tree)
                 _normalise_returned_temps(tree)
